@@ -83,6 +83,7 @@ type Obs struct {
 	Cut       bool   // cap reached, context cancelled by the harness
 	Run       string // nil|canceled|limit|passes|noammo|other:<..>|noreturn
 	End       string // closed (the consumer saw ok=false) | blocked | spinning
+	Panic     string // the consumer goroutine panicked (in Acquire / Release)
 }
 
 // ---------------------------------------------------------------- the filesystem of the plugins
@@ -501,16 +502,30 @@ func runOnce(c Cell) Obs {
 
 	runDone := make(chan error, 1)
 	go func() {
-		err := p.Run(ctx, core.ProviderDeps{Log: zap.NewNop(), PoolID: "c14"})
-		events.Add(1)
-		runDone <- err
+		var err error
+		defer func() {
+			if r := recover(); r != nil {
+				err = fmt.Errorf("panic in Provider.Run: %v", r)
+			}
+			events.Add(1)
+			runDone <- err
+		}()
+		err = p.Run(ctx, core.ProviderDeps{Log: zap.NewNop(), PoolID: "c14"})
 	}()
 
 	var ended atomic.Bool
 	consDone := make(chan struct{}, 1)
 	const drainMax = 50000
 	go func() {
-		defer func() { consDone <- struct{}{} }()
+		defer func() {
+			if r := recover(); r != nil { // a consumer that dies in Acquire: the cell is reported as not closed
+				mu.Lock()
+				obs.Panic = fmt.Sprint(r)
+				mu.Unlock()
+				cancel()
+			}
+			consDone <- struct{}{}
+		}()
 		k, drained := 0, 0
 		for {
 			a, ok := p.Acquire()
@@ -575,6 +590,12 @@ func runOnce(c Cell) Obs {
 		obs.Run = classifyErr(runErr)
 	} else {
 		obs.Run = "noreturn"
+	}
+	mu.Lock()
+	panicked := obs.Panic != ""
+	mu.Unlock()
+	if panicked {
+		obs.Run = "other:consumer_panic"
 	}
 	if ended.Load() {
 		obs.End = "closed"
